@@ -237,6 +237,13 @@ pub fn c10(opts: &Opts) -> Report {
                 if ctx.rng.chance(1, 3) { v.push(Seg::Lit(" ".repeat(1 + ctx.rng.below(3)))); }
                 v
             };
+            // an excluded execution first (a pad width no machine can allocate, traced): whatever it does, the ordinary
+            // calls that follow are inside the property again, traced and untraced alike
+            if i % 20 == 17 {
+                ctx.rep.bump("after_an_unallocatable_traced_call");
+                if let real::Parsed::Ok(t) = real::parse_with_debug("{pad:18446744073709551615}", Some(true)) { let _ = real::format(&t, "a"); }
+                if let real::Parsed::Ok(t) = real::parse_with_debug("x{split:,:..|map:{pad:18446744073709551615:*:left}}", Some(true)) { let _ = real::format(&t, "a,b"); }
+            }
             // a pattern that does not compile, in a step the run never reaches or reaches only after another failure
             let unreached = i % 20 == 13;
             let segs = if unreached {
@@ -338,6 +345,16 @@ pub fn c10(opts: &Opts) -> Report {
                         let got = if o.status.success() { Out::Ok(String::from_utf8_lossy(&o.stdout).to_string()) } else if o.status.code() == Some(1) { Out::Err } else { Out::Panic };
                         if got != off { viol(ctx, "property", format!("C10: CLI {flags:?} on ({text:?}, {x:?}) gives {} but the library (tracing off) gives {}", got.show(), off.show()), vec![("template", text.clone()), ("input", x.clone()), ("route", format!("cli {flags:?}")), ("observed", got.show()), ("expected", off.show()), ("theorem", "C10_transparent".into())]); return; }
                     }
+                }
+            }
+            if !cli.is_empty() && i % 25 == 5 && !text.contains('\0') && !text.starts_with('-') {
+                // --validate says the same thing on stdout, and exits the same way, with tracing on or off
+                let run = |flags: &[&str]| std::process::Command::new(&cli).args(flags).arg("--").arg(&text).stdin(std::process::Stdio::null()).output().ok().map(|o| (o.status.code(), String::from_utf8_lossy(&o.stdout).to_string()));
+                let plain = run(&["--validate"]); let traced = run(&["--validate", "--debug"]);
+                ctx.rep.bump("route_cli_validate");
+                if plain != traced {
+                    viol(ctx, "property", format!("C10: CLI --validate on {text:?}: with --debug {:?}, without {:?}", traced, plain), vec![("template", text.clone()), ("route", "cli --validate".into()), ("observed", format!("{traced:?}")), ("expected", format!("{plain:?}")), ("theorem", "C10_transparent".into())]);
+                    return;
                 }
             }
             if i < 3 { ctx.rep.sample(format!("route {route}: {text:?} on {x:?} -> {}", on.show())); }
@@ -545,16 +562,37 @@ pub fn c20(opts: &Opts) -> Report {
 
 /// the same pipeline with the letter case of one argument toggled, or one replace flag added (None if nothing to change)
 pub fn tweak_case_or_flag(ops: &[Op]) -> Option<Vec<Op>> {
-    let toggle = |s: &str| -> Option<String> { let t: String = s.chars().map(|c| if c.is_ascii_lowercase() { c.to_ascii_uppercase() } else if c.is_ascii_uppercase() { c.to_ascii_lowercase() } else { c }).collect(); if t != s { Some(t) } else { None } };
+    // ASCII and non-ASCII letters with a one-to-one case partner
+    let flip = |c: char| -> char {
+        if c.is_lowercase() { let mut u = c.to_uppercase(); match (u.next(), u.next()) { (Some(x), None) if x != c => x, _ => c } }
+        else if c.is_uppercase() { let mut l = c.to_lowercase(); match (l.next(), l.next()) { (Some(x), None) if x != c => x, _ => c } }
+        else { c }
+    };
+    let toggle = |s: &str| -> Option<String> { let t: String = s.chars().map(flip).collect(); if t != s { Some(t) } else { None } };
     let mut out = ops.to_vec();
     for o in out.iter_mut().rev() {
         match o {
             Op::Join(s) | Op::Append(s) | Op::Prepend(s) | Op::Surround(s) => if let Some(t) = toggle(s) { *s = t; return Some(out); },
             Op::Replace(_, _, f) => { if !f.contains('g') { f.push('g'); } else { *f = f.replace('g', ""); } return Some(out); }
+            Op::Filter(p) | Op::FilterNot(p) | Op::RegexExtract(p, _) => if let Some(t) = toggle(p) { *p = t; return Some(out); },
+            Op::Trim(s, _) | Op::Split(s, _) => if let Some(t) = toggle(s) { *s = t; return Some(out); },
+            Op::Pad(_, c, _) => { let d = flip(*c); if d != *c { *c = d; return Some(out); } }
+            Op::Map(body) => if let Some(b2) = tweak_case_or_flag(body) { *body = b2; return Some(out); },
             _ => {}
         }
     }
     None
+}
+
+/// two sections that differ in one letter case / one flag, in ONE template on one input: each must mean what it says.
+/// Returns Some((template, whole, parts)) when the two disagree.
+pub fn near_duplicate_sections_disagree(ops: &[Op], x: &str) -> Option<(String, Out, Out)> {
+    let ops2 = tweak_case_or_flag(ops)?;
+    let (a, b) = (print_block(ops), print_block(&ops2));
+    let text = format!("{a} / {b} / {a}");
+    let whole = real::parse_format(&text, x);
+    let parts = match (real::parse_format(&a, x), real::parse_format(&b, x)) { (Out::Ok(p), Out::Ok(q)) => Out::Ok(format!("{p} / {q} / {p}")), (Out::Panic, _) | (_, Out::Panic) => Out::Panic, _ => Out::Err };
+    if whole != parts { Some((text, whole, parts)) } else { None }
 }
 
 /* ---------- C05 ------------------------------------------------------------------- */
@@ -684,6 +722,9 @@ pub fn c05(opts: &Opts) -> Report {
                     vec![("{split:,:..|sort} / {split:,:..|map:{upper}}", "pear,apple,fig"), ("{split:,:..|map:{upper}} / {split:,:..|sort:desc}", "pear,apple,fig")],
                     vec![("{split:,:..|join: }", "a b,c"), ("{split: :..|join:,}", "a b c"), ("{split: :1}", "a b c")],
                     vec![("{replace:s/o/0/}", "foo boo"), ("{replace:s/o/0/g}", "foo boo"), ("{replace:s/O/0/i}", "foo boo"), ("{replace:s/o/0/}", "foo boo")],
+                    // one pattern text with and without the x flag (white space in the pattern is then ignored), both orders, and as a filter
+                    vec![("{replace:s/o w/_/}", "how o w ow"), ("{replace:s/o w/_/x}", "how o w ow"), ("{split:,:..|filter:o w}", "how o w,ow"), ("{replace:s/o w/_/}", "how o w ow")],
+                    vec![("{replace:s/qz a b/X/x}", "qzab qz a b"), ("{replace:s/qz a b/X/}", "qzab qz a b"), ("{split:,:..|filter_not:qz a b}", "qzab,qz a b"), ("{replace:s/qz a b/X/xi}", "QZAB qz a b")],
                 ];
                 for (sn, sc) in scenarios.iter().enumerate() {
                     hooks::clear_caches(); ctx.drv.request("CLEAR");
@@ -1038,6 +1079,38 @@ pub fn c19(opts: &Opts) -> Report {
                 }
                 let dec = format!("\x1b[31m{s}\x1b[0m");
                 if real::parse_format("{strip_ansi}", &dec) != Out::Ok(s.clone()) { viol(ctx, "property", format!("C19: a decorated {}-byte text is not restored", s.len()), vec![("template", "{strip_ansi}".into()), ("input_description", format!("ESC[31m + 'a' x {pad} + '{c}' x 20 + 'b' x 70000 + '{c}' x 5 + ESC[0m")), ("theorem", "C19_strip_decorate".into())]); }
+                return;
+            }
+            if i % 50 == 21 {
+                // many text runs in one string (63 ... 257 and more), every kind of sequence between them
+                let n = *ctx.rng.pick(&[63usize, 64, 65, 66, 100, 128, 129, 257, 1025]);
+                let seqs = ["\u{1b}[31m", "\u{1b}[0m", "\u{1b}]0;t\u{7}", "\u{1b}(B", "\u{1b}[2K", "\u{1b}]8;;http://x\u{1b}\\", "\u{1b}[?25l", "\u{1b}M"];
+                let mut dec = String::new(); let mut plain = String::new();
+                for k in 0..n { let w = format!("t{k}é"); dec.push_str(&w); plain.push_str(&w); dec.push_str(seqs[k % seqs.len()]); }
+                ctx.rep.bump("many_text_runs");
+                for (text, xin, want) in [("{strip_ansi}", dec.clone(), plain.clone()), ("{split:\\n:..|map:{strip_ansi}}", format!("{dec}\n{dec}"), format!("{plain}\n{plain}"))] {
+                    let got = real::parse_format(text, &xin);
+                    if got != Out::Ok(want.clone()) {
+                        viol(ctx, "property", format!("C19: a text of {n} runs separated by escape sequences: strip_ansi returns {} bytes, the text alone has {}", got.show().len(), want.len()), vec![("template", text.to_string()), ("input_description", format!("t<k>é + one of 8 sequences, k < {n}")), ("input", xin), ("theorem", "C19_strip_decorate".into())]);
+                        return;
+                    }
+                }
+                return;
+            }
+            if i % 50 == 37 {
+                // several inputs in ONE format_with_inputs call: every section strips ITS text
+                let words = ["red", "green", "plain two", "é blue", ""];
+                let deco = |w: &str, k: usize| match k % 4 { 0 => format!("\u{1b}[31m{w}\u{1b}[0m"), 1 => format!("\u{1b}]0;title\u{7}{w}"), 2 => w.to_string(), _ => format!("{w}\u{1b}[2K") };
+                let k0 = ctx.rng.below(5);
+                let ins: Vec<(String, String)> = (0..3).map(|j| { let w = words[(k0 + j) % 5]; (deco(w, k0 + j), w.to_string()) }).collect();
+                if let real::Parsed::Ok(t) = real::parse("{strip_ansi} / {strip_ansi|upper} / {strip_ansi}") {
+                    let got = real::fwi(&t, &[vec![ins[0].0.clone()], vec![ins[1].0.clone()], vec![ins[2].0.clone(), ins[0].0.clone()]], &[" ".to_string(), " ".to_string(), "+".to_string()]);
+                    let want = Out::Ok(format!("{} / {} / {}+{}", ins[0].1, ins[1].1.to_uppercase(), ins[2].1, ins[0].1));
+                    ctx.rep.bump("several_inputs_in_one_call");
+                    if got != want {
+                        viol(ctx, "property", format!("C19: format_with_inputs over three strip_ansi sections gives {} but every input stripped alone gives {}", got.show(), want.show()), vec![("template", "{strip_ansi} / {strip_ansi|upper} / {strip_ansi}".into()), ("inputs", format!("{ins:?}")), ("observed", got.show()), ("expected", want.show()), ("theorem", "C19_strip_decorate".into())]);
+                    }
+                }
                 return;
             }
             if i % 4 == 3 {
